@@ -87,8 +87,21 @@ pub fn c06(ctx: &Ctx) {
             let p = PRIMARIES[pi];
             let (from, to) = if dir == 0 { (p, CP::BT709) } else { (CP::BT709, p) };
             let m = primaries_matrix(from, to);
-            let n = (img - rng.below(4)) as usize;
+            // image length: usually ~4090 pixels; sometimes 1..7 pixels; sometimes every pixel doubled and the order reversed
+            let variant = rng.below(8);
+            let n = if variant == 0 { 1 + rng.below(7) as usize } else { (img - rng.below(4)) as usize };
             let mut px: Vec<[f32; 3]> = (0..n as u64).map(|i| c06_px(&mut rng, i)).collect();
+            if variant == 1 {
+                let mut v = Vec::with_capacity(n);
+                for i in (0..n / 2).rev() {
+                    v.push(px[i]);
+                    v.push(px[i]);
+                }
+                if v.len() < n {
+                    v.push(px[0]);
+                }
+                px = v;
+            }
             px[n - 1] = [1.0, 1.0, 1.0];
             let (w, h) = if n % 3 == 0 { (n / 3, 3) } else { (n, 1) };
             let out = match conv(px.clone(), w, h, p, dir) {
